@@ -1,4 +1,5 @@
 mod mgr;
+mod leak;
 mod store;
 mod world;
 
@@ -8,6 +9,7 @@ fn main() {
         Some("store") => store::main(&args[2..]),
         Some("mgr") => mgr::main(&args[2..]),
         Some("world") => world::main(&args[2..]),
+        Some("leak") => leak::main(&args[2..]),
         _ => {
             eprintln!("usage: vh store [--file] < ops");
             2
